@@ -27,10 +27,10 @@ type Opts struct {
 	Report         map[string]bool // violation classes to report: ret, query, frozen, rev, changes, abort
 	SchemaPick     []int           // indexes into Schemas to choose from (nil = all)
 	AbortPct       int
-	Ctl            *hookctl.Ctl    // hook controller (needed for ForceGC)
-	Quiesce        bool            // drain + bounded-collection checks (C08)
-	ForceGC        bool            // pause the collector between its scan and its write transaction and mutate the table meanwhile
-	Sleep          func()          // lets virtual time pass (GC rounds); nil = no-op
+	Ctl            *hookctl.Ctl      // hook controller (needed for ForceGC)
+	Quiesce        bool              // drain + bounded-collection checks (C08)
+	ForceGC        bool              // pause the collector between its scan and its write transaction and mutate the table meanwhile
+	Sleep          func()            // lets virtual time pass (GC rounds); nil = no-op
 	OnSim          func(*Sim) func() // called with each new Sim; the returned function is called when the history ends
 }
 
@@ -67,44 +67,44 @@ type retSeq struct {
 
 // Sim is one running history.
 type Sim struct {
-	R    *vkit.Run
-	Idx  int
-	Rng  *rand.Rand
-	O    Opts
-	DB   *statedb.DB
+	R      *vkit.Run
+	Idx    int
+	Rng    *rand.Rand
+	O      Opts
+	DB     *statedb.DB
 	Handle string
-	Tabs []*simTable
+	Tabs   []*simTable
 
-	snaps   []*snapshot
-	watches []*simWatch
-	txnBefore map[*simWatch]bool
-	txnChanged map[*simTable]bool
+	snaps                        []*snapshot
+	watches                      []*simWatch
+	txnBefore                    map[*simWatch]bool
+	txnChanged                   map[*simTable]bool
 	watchHandouts, watchVerdicts int
-	itx     map[*simTable]*iterTxnState
-	iterSeq int
-	open    statedb.WriteTxn // the write transaction in flight (aborted by Recover)
-	metrics *metricsRec
-	forceFull bool
-	bias      string // "", "grow", "shrink" (wide schemas)
-	forceSet  []*simTable // table set of the next RunTxn (nested transactions)
-	forced    *forcedOp   // the next RunTxn performs exactly this operation and commits
-	zombies   []statedb.ChangeIterator[*Obj] // iterators created in transactions that aborted (kept reachable, not closed)
-	gcChecks int
-	gcPauses int
-	closePauses int
-	regPending  chan struct{}
-	regTick     int
-	registrations int
-	nextN   uint64
-	fp      *vkit.Hash64
-	Log     []string
-	Failed  bool
-	frozenChecks  int
-	queryChecks   int
-	retChecks     int
-	revChecks     int
-	changeChecks  int
-	commits, aborts int
+	itx                          map[*simTable]*iterTxnState
+	iterSeq                      int
+	open                         statedb.WriteTxn // the write transaction in flight (aborted by Recover)
+	metrics                      *metricsRec
+	forceFull                    bool
+	bias                         string                         // "", "grow", "shrink" (wide schemas)
+	forceSet                     []*simTable                    // table set of the next RunTxn (nested transactions)
+	forced                       *forcedOp                      // the next RunTxn performs exactly this operation and commits
+	zombies                      []statedb.ChangeIterator[*Obj] // iterators created in transactions that aborted (kept reachable, not closed)
+	gcChecks                     int
+	gcPauses                     int
+	closePauses                  int
+	regPending                   chan struct{}
+	regTick                      int
+	registrations                int
+	nextN                        uint64
+	fp                           *vkit.Hash64
+	Log                          []string
+	Failed                       bool
+	frozenChecks                 int
+	queryChecks                  int
+	retChecks                    int
+	revChecks                    int
+	changeChecks                 int
+	commits, aborts              int
 }
 
 func (s *Sim) Logf(f string, a ...any) {
@@ -444,16 +444,16 @@ func (s *Sim) writeOp(what string, wtxn statedb.WriteTxn, t *simTable, working *
 		}
 	}
 	var (
-		opName  string
-		old     *Obj
-		had     bool
-		err     error
-		wantErr = "nil"
+		opName   string
+		old      *Obj
+		had      bool
+		err      error
+		wantErr  = "nil"
 		insWatch <-chan struct{}
-		newObj  *Obj // object now stored (nil = none / deleted)
-		changed bool
-		wantOld = cur
-		wantHad = exists
+		newObj   *Obj // object now stored (nil = none / deleted)
+		changed  bool
+		wantOld  = cur
+		wantHad  = exists
 	)
 	switch {
 	case kind < 30: // Insert / InsertWatch
@@ -825,16 +825,16 @@ func (s *Sim) Finish(nontrivial bool) {
 }
 
 // Counters for callers.
-func (s *Sim) FrozenChecks() int { return s.frozenChecks }
-func (s *Sim) QueryChecks() int  { return s.queryChecks }
-func (s *Sim) RetChecks() int    { return s.retChecks }
-func (s *Sim) RevChecks() int    { return s.revChecks }
-func (s *Sim) ChangeChecks() int { return s.changeChecks }
-func (s *Sim) Commits() int      { return s.commits }
+func (s *Sim) FrozenChecks() int  { return s.frozenChecks }
+func (s *Sim) QueryChecks() int   { return s.queryChecks }
+func (s *Sim) RetChecks() int     { return s.retChecks }
+func (s *Sim) RevChecks() int     { return s.revChecks }
+func (s *Sim) ChangeChecks() int  { return s.changeChecks }
+func (s *Sim) Commits() int       { return s.commits }
 func (s *Sim) WatchVerdicts() int { return s.watchVerdicts }
 func (s *Sim) GCChecks() int      { return s.gcChecks }
 func (s *Sim) GCPauses() int      { return s.gcPauses }
-func (s *Sim) Aborts() int       { return s.aborts }
+func (s *Sim) Aborts() int        { return s.aborts }
 
 // Recover turns a panic inside the history into a violation of class "panic" (always reported).
 func (s *Sim) Recover() {
